@@ -25,11 +25,12 @@ FILE_CHANNELS = ["json", "json_vu", "csv_dir", "csv_tuple", "xlsx"]
 MEM_CHANNELS = ["dict", "model", "vu_dict", "from_json"]
 FORBIDDEN = set("[]:*?/\\")
 UNITS = dict(t_supply="degC", t_target="degC", heat_flow="kW", dt_cont="degC", htc="kW/m^2/degC", price="$/MWh")
-SAFE_NAMES = ["H1", "C 2", "Feed-pre", "Reboiler (A)", "Stream_7", "Cond, top", "Wasseré", "x&y", "BFW"]
+SAFE_NAMES = ["H1", "C 2", "Feed-pre", "Reboiler (A)", "Stream_7", "Cond, top", "Wasseré", "x&y", "BFW", 'He said "hi"', "O'Brien feed", "semi;colon"]
 SAFE_ZONES = ["Plant", "Area 1", "Unit-A", "North", "Dairy (2)", "B_2"]
 HOSTILE_ZONES = [
     "Zone[1]", "a:b", "what?", "star*", "back\\slash", "'quoted'", "x" * 40, "Very long zone name that exceeds the limit", "Very long zone name that exceeds the limIT",
     "Very long zone name that exceeds the limit!", "Überhitzer – Stufe 2", "tab\tname", "Sheet", "  padded  ", "UPPER", "upper", "a/b:c", "History",
+    "what*", "what_", "star?", "a:b?", "a_b_", "'", "''", "?", "x" * 30 + "'", "[]", "Summary",
 ]
 LONG_FAMILY = [f"Evaporation and stripping plant - line {i}" for i in range(1, 9)]
 STEMS = ["case", "run A", "plant_2024", "x-y", "Projekt ä", "p (1)"]
@@ -38,6 +39,16 @@ HOSTILE_STEMS = ["a[b]", "q?", "x:y", "'q'", "a very long project name over thir
 
 # ------------------------------------------------------------------------------------------- producer
 BLANKABLE = ("t_target", "dt_cont", "price", "htc")  # utility cells that may be left blank (defaults apply)
+
+
+def as_ints(p):
+    """Same problem with integral floats written as Python ints (what a hand-written dict or JSON file looks like)."""
+    for rec in p["streams"] + p.get("utilities", []):
+        for k in UNITS:
+            v = rec.get(k)
+            if isinstance(v, float) and v.is_integer():
+                rec[k] = int(v)
+    return p
 
 
 def materialize(prob):
@@ -59,9 +70,9 @@ def vu_problem(prob):
     return p
 
 
-def write_json(path, prob, vu=False):
+def write_json(path, prob, vu=False, ints=False):
     with open(path, "w", encoding="utf-8") as f:
-        json.dump(vu_problem(prob) if vu else materialize(prob), f)
+        json.dump(vu_problem(prob) if vu else (as_ints(materialize(prob)) if ints else materialize(prob)), f)
 
 
 S_HEAD = (["Process Zone", "Stream", "TS", "TT", "ΔH", "ΔTcont", "HTC"], ["", "", "°C", "°C", "kW", "°C", "kW/m2/°C"])
@@ -148,7 +159,16 @@ def simplify_output(out):
                 area=t.get("area"),
             )
         )
-    return dict(name=d.get("name"), targets=recs, graph_keys=sorted((d.get("graphs") or {}).keys()))
+    graphs = {}
+    for key, gs in (d.get("graphs") or {}).items():
+        shape, vals = [], []
+        for g in gs.get("graphs", []):
+            shape.append((g.get("type"), [(sg.get("title"), len(sg.get("data_points", []))) for sg in g.get("segments", [])]))
+            for sg in g.get("segments", []):
+                for pt_ in sg.get("data_points", []):
+                    vals += [pt_["x"], pt_["y"]]
+        graphs[key] = (shape, vals)
+    return dict(name=d.get("name"), targets=recs, graph_keys=sorted((d.get("graphs") or {}).keys()), graphs=graphs)
 
 
 def _num(x):
@@ -157,8 +177,9 @@ def _num(x):
     return x
 
 
-def compare_outputs(a, b, scale):
-    """Return None if equal within 1e-9*scale, else a description + generalised field."""
+def compare_outputs(a, b, scale, graph_tol=0.011):
+    """Return None if equal within 1e-9*scale, else a description + generalised field.
+    Graph payloads: same structure, values within max(1e-9*scale, graph_tol) (they are rounded for display)."""
     if a["name"] != b["name"]:
         return "name", f"result name {a['name']!r} vs {b['name']!r}"
     if [t["name"] for t in a["targets"]] != [t["name"] for t in b["targets"]]:
@@ -183,6 +204,19 @@ def compare_outputs(a, b, scale):
             for (n, x), (_, y) in zip(ta[side], tb[side]):
                 if not close(x, y):
                     return side + "_utility_duty", f"record {ta['name']!r}: {side} utility {n!r} duty {_num(x)!r} vs {_num(y)!r}"
+    if graph_tol is not None:
+        gt = max(eps, graph_tol)
+        for key in a["graph_keys"]:
+            (sa, va), (sb, vb) = a["graphs"][key], b["graphs"][key]
+            if sa != sb:
+                return "graph_structure", f"graph set {key!r}: graph types / segment titles / point counts differ"
+            for x, y in zip(va, vb):
+                if x is None or y is None:
+                    if x is not y:
+                        return "graph_values", f"graph set {key!r}: a plotted point is missing on one side"
+                    continue
+                if not abs(x - y) <= gt:
+                    return "graph_values", f"graph set {key!r}: a plotted point differs {x!r} vs {y!r}"
     return None
 
 
@@ -246,6 +280,12 @@ class C16(World):
         for k in range(swarm["n_problems"]):
             p = problems.generate(pr, small=True)
             p.pop("zone_tree", None)
+            if pr.random() < 0.15:
+                # a sub-ambient problem: every temperature shifted below zero
+                shift = float(pr.choice([150, 250, 420]))
+                for rec in p["streams"] + p["utilities"]:
+                    rec["t_supply"] = round(rec["t_supply"] - shift, 3)
+                    rec["t_target"] = round(rec["t_target"] - shift, 3)
             hostile = swarm["hostile"] and pr.random() < 0.7
             zpool = HOSTILE_ZONES if hostile else SAFE_ZONES
             if hostile and pr.random() < 0.3:
@@ -274,9 +314,13 @@ class C16(World):
                 u["heat_flow"] = None
                 if not hostile and pr.random() < 0.12:
                     u[pr.choice(BLANKABLE)] = None  # a cell left blank: the documented default applies
-            has_opts = (not hostile) and pr.random() < 0.2
+            has_opts = (not hostile) and pr.random() < 0.3
             if has_opts:
                 p["options"] = {k2: v for k2, v in (problems.gen_options(pr) or {}).items() if k2 != "REFRIGERANTS"} or dict(DO_VERTICAL_GCC=True)
+                if pr.random() < 0.5:
+                    # an option explicitly set to a "falsy" value that differs from its default
+                    k2, v = pr.choice([("DO_BALANCED_CC", False), ("DT_CONT", 0.0), ("UTILITY_PRICE", 0.0), ("DT_CONT", 0), ("DECIMAL_PLACES", 0)])
+                    p["options"][k2] = v
             probs.append(dict(data=p, hostile=hostile, options=bool(p.get("options"))))
         steps = []
         nw = swarm["n_wrappers"]
@@ -305,7 +349,7 @@ class C16(World):
                 if fault and args.random() < 0.5:
                     st["abort_at"] = args.choice([20, 200, 2000, 12000, 30000])
             elif op == "svc":
-                st = dict(op="svc", p=args.randrange(len(probs)), form=args.choice(["dict", "model", "vu_dict"]), name=args.choice(STEMS))
+                st = dict(op="svc", p=args.randrange(len(probs)), form=args.choice(["dict", "model", "vu_dict"]), name=args.choice(STEMS), ints=args.random() < 0.4)
             elif op == "export":
                 st = dict(op="export", w=args.randrange(nw), dir=args.choice(["out", "out", "out2"]))
                 if fault:
@@ -494,7 +538,7 @@ class C16(World):
                     exact = False
                     if ch == "json" or ch == "json_vu":
                         src = os.path.join(d, stem + ".json")
-                        write_json(src, data, vu=(ch == "json_vu"))
+                        write_json(src, data, vu=(ch == "json_vu"), ints=style["ints"])
                         exact = True
                     elif ch == "csv_dir":
                         src = os.path.join(d, stem)
@@ -526,7 +570,7 @@ class C16(World):
                     def do_load():
                         if ch == "dict":
                             # the documented in-memory route for dictionaries
-                            nw = PinchProblem.from_json(materialize(data))
+                            nw = PinchProblem.from_json(as_ints(materialize(data)) if style["ints"] else materialize(data))
                             wrappers[w_i] = nw
                             return nw
                         if ch == "from_json":
@@ -615,7 +659,7 @@ class C16(World):
                     data = probs[p]["data"]
                     form = st["form"]
                     if form == "dict":
-                        arg = materialize(data)
+                        arg = as_ints(materialize(data)) if st.get("ints") else materialize(data)
                     elif form == "model":
                         arg = TargetInput.model_validate(materialize(data))
                     else:
@@ -845,7 +889,7 @@ class C16(World):
         if kind == "ok":
             a, b = simplify_output(val), simplify_output(ref)
             scale = 1e3 * total_duty(problems.plain_numbers(prob))  # shipped twins agree to 1e-6 of total duty
-            d = compare_outputs(a, b, scale)
+            d = compare_outputs(a, b, scale, graph_tol=None)
             if d and d[0] not in ("record_names", "name", "graph_keys", "hot_utility_names", "cold_utility_names"):
                 V("channel_eq", f"xlsb|{d[0]}|none", step, f"{os.path.basename(f)} vs its JSON twin: {d[1]}")
         return kind
